@@ -24,7 +24,7 @@ def rand_text(rng, nmax):
 class C19(Prop):
     id = "C19"
     prop_file = "Props/C19.v"
-    rule = ("boundary and random interior values of each integer type, random non-NaN float/double bit patterns plus the edges of both ranges (zeros, subnormals, largest finite values, infinities), random IPv4/IPv6 addresses, "
+    rule = ("boundary and random interior values of each integer type, random non-NaN float/double bit patterns plus the edges of both ranges (zeros, subnormals, largest finite values, infinities), random IPv4/IPv6 addresses and the special IPv6 blocks (IPv4-mapped / -compatible, NAT64, loopback, unspecified, link-local, multicast, all ones), "
             "Unicode strings mixing 1-4 byte code points (String, VarString), byte strings of length 0..255 (VarBytes), all bit positions x "
             "random bytes (BitArray), each followed by random trailing bytes; observed to_bytes(), from_bytes().value, .size.  Non-trivial = "
             "value representable; distinct by (type, value, trailing).")
@@ -59,6 +59,15 @@ class C19(Prop):
         for _ in range(n // 2):
             cases.append({"kind": "IPv4", "v": [rng.randrange(256) for _ in range(4)], "trailing": tr()})
             cases.append({"kind": "IPv6", "v": [rng.choice([0, 0, rng.randrange(256)]) for _ in range(16)], "trailing": tr()})
+        # the special blocks of the IPv6 address space (textual forms differ: IPv4-mapped and -compatible addresses, NAT64, loopback,
+        # unspecified, link-local, multicast, documentation, all ones)
+        v4 = lambda: [rng.randrange(256) for _ in range(4)]
+        for _ in range(max(8, n // 8)):
+            for pre in ([0] * 10 + [0xFF, 0xFF], [0] * 12, [0, 0x64, 0xFF, 0x9B] + [0] * 8, [0] * 8 + [0xFF, 0xFF, 0, 0],
+                        [0] * 10 + [0xFF, 0xFE], [0xFE, 0x80] + [0] * 10, [0xFF, 0x02] + [0] * 10, [0x20, 0x01, 0x0D, 0xB8] + [0] * 8):
+                cases.append({"kind": "IPv6", "v": list(pre) + v4(), "trailing": tr()})
+        for v in ([0] * 16, [0] * 15 + [1], [0xFF] * 16, [0] * 10 + [0xFF, 0xFF, 0, 0, 0, 0], [0] * 10 + [0xFF, 0xFF, 255, 255, 255, 255]):
+            cases.append({"kind": "IPv6", "v": list(v), "trailing": tr()})
         for _ in range(n):
             s = rand_text(rng, 12).replace("\0", "")
             cases.append({"kind": "String", "v": list(s.encode()), "trailing": tr()})
@@ -123,7 +132,10 @@ class C19(Prop):
                 o = cls(text)
                 packed, s0 = o.to_bytes(), o.size
                 o2 = cls.from_bytes(packed + tr)
-                raw = socket.inet_aton(o2.value) if k == "IPv4" else socket.inet_pton(socket.AF_INET6, o2.value)
+                try:
+                    raw = socket.inet_aton(o2.value) if k == "IPv4" else socket.inet_pton(socket.AF_INET6, o2.value)
+                except OSError:
+                    raw = b""           # the value read back is not an address of this family at all
                 return {"packed": list(packed), "size0": s0, "value": [3, list(raw)], "size": o2.size}
             if k in ("String", "VarString"):
                 cls = getattr(DT, k)
